@@ -31,8 +31,9 @@ func (w *GCSWorld) RestartInPlace() {
 	w.emu.Register(w.mux)
 }
 
-func runResumable(w *GCSWorld, o gOp) (*HResp, []string) {
+func runResumable(w *GCSWorld, o gOp) (*HResp, []string, *gResp) {
 	var trace []string
+	var between *gResp
 	r := w.r
 	plan := o.Resum
 	if plan == nil {
@@ -49,7 +50,12 @@ restart:
 	first, id := w.ResumableStart(o.Up)
 	note("POST resumable -> %d id=%q", first.Status, id)
 	if first.Status != 200 || id == "" {
-		return first, trace
+		return first, trace, between
+	}
+	if o.Between != nil && between == nil {
+		br := execG(w, *o.Between)
+		between = &br
+		note("meanwhile: %s -> %d", *o.Between, br.Status)
 	}
 	var acked int64
 	var prevLo int64 = -1
@@ -73,7 +79,7 @@ restart:
 				resp := w.ResumableChunk(o.Up.Bucket, id, nil, -1, N, false)
 				note("restart; status query -> %d", resp.Status)
 				if resp.Status < 400 {
-					return bad(resp, "after a server restart the upload id must be unknown (an error status), got %d", resp.Status), trace
+					return bad(resp, "after a server restart the upload id must be unknown (an error status), got %d", resp.Status), trace, between
 				}
 				plan = &resumPlan{Chunks: plan.Chunks, KnownTotal: plan.KnownTotal}
 				goto restart
@@ -89,16 +95,16 @@ restart:
 			note("PUT bytes */%d -> %d Range=%q", qt, resp.Status, resp.Header.Get("Range"))
 			if resp.Status == 200 || resp.Status == 201 {
 				if acked != N || qt < 0 {
-					return bad(resp, "a status query completed the upload although only %d of %d bytes were sent", acked, N), trace
+					return bad(resp, "a status query completed the upload although only %d of %d bytes were sent", acked, N), trace, between
 				}
 				r.Probe("c02.finished_by_status_query")
-				return resp, trace
+				return resp, trace, between
 			}
 			if resp.Status != 308 {
-				return resp, trace
+				return resp, trace, between
 			}
 			if got := rangeEnd(resp.Header.Get("Range")); got != acked {
-				return bad(resp, "status query reports %d bytes received (Range %q), client sent %d", got, resp.Header.Get("Range"), acked), trace
+				return bad(resp, "status query reports %d bytes received (Range %q), client sent %d", got, resp.Header.Get("Range"), acked), trace, between
 			}
 			if act == 5 && acked < N {
 				act = 0
@@ -136,7 +142,7 @@ restart:
 			// empty payload (or nothing left): finish with a status-style request
 			resp := w.ResumableChunk(o.Up.Bucket, id, nil, -1, N, false)
 			note("PUT bytes */%d -> %d", N, resp.Status)
-			return resp, trace
+			return resp, trace, between
 		}
 		resp := send()
 		if act == 4 && resp.Status == 308 {
@@ -155,10 +161,10 @@ restart:
 		case resp.Status == 308:
 			want := lo + int64(n)
 			if got := rangeEnd(resp.Header.Get("Range")); got != want {
-				return bad(resp, "after bytes %d-%d the server reports %d bytes received (Range %q), want %d", lo, lo+int64(n)-1, got, resp.Header.Get("Range"), want), trace
+				return bad(resp, "after bytes %d-%d the server reports %d bytes received (Range %q), want %d", lo, lo+int64(n)-1, got, resp.Header.Get("Range"), want), trace, between
 			}
 			if t >= 0 && want >= t {
-				return bad(resp, "all %d bytes sent with the total declared, but the server answered 308", t), trace
+				return bad(resp, "all %d bytes sent with the total declared, but the server answered 308", t), trace, between
 			}
 			acked = want
 			if acked == N {
@@ -166,11 +172,11 @@ restart:
 				fin := w.ResumableChunk(o.Up.Bucket, id, nil, -1, N, false)
 				note("PUT bytes */%d -> %d", N, fin.Status)
 				r.Probe("c02.finished_by_status_query")
-				return fin, trace
+				return fin, trace, between
 			}
 		default:
-			return resp, trace
+			return resp, trace, between
 		}
 	}
-	return bad(first, "upload did not finish within 64 steps"), trace
+	return bad(first, "upload did not finish within 64 steps"), trace, between
 }
